@@ -14,4 +14,4 @@ Extraction "C14_model.ml" c14_unused_scalar run check_shapes ok
   case_history obs_history h_init case_grid obs_grid case_sigma sigma_out case_ut obs_ut
   case_kfp obs_kfp case_kfc obs_kfc case_ukfp ukfp_out case_ukfc obs_ukfc case_sukf obs_sukf
   case_resample obs_resample case_resprior resample_prior_out case_density case_uvr
-  case_extract obs_extract case_psaug obs_psaug.
+  case_extract obs_extract case_psaug obs_psaug case_extseq obs_extseq win_extseq.
